@@ -160,6 +160,9 @@ impl FromStr for Capability {
                 Ok(Self::Startup)
             }
             ("urn", None, "ietf:params:netconf:capability:url:1.0", Some(query), None) => {
+                // the text is the raw span of the <capability> element: resolve `&amp;` (and
+                // other character references) before splitting the query into its arguments
+                let query = quick_xml::escape::unescape(query).map_err(quick_xml::Error::from)?;
                 let schemes = query
                     .split('&')
                     .filter_map(|pair| match pair.split_once('=') {
